@@ -35,7 +35,11 @@ def run_one(job):
     if rc != 0:
         return name, prop, "setup-failed", 0
     try:
-        if kind == "patch":
+        if kind == "harmless":
+            kind_apply = "mutant"
+        else:
+            kind_apply = kind
+        if kind_apply == "patch":
             rc, _ = sh(f"cd {wt} && (git apply {payload} 2>/dev/null || git apply -3 {payload} 2>/dev/null)")
             if rc != 0:
                 return name, prop, "patch-does-not-apply", 0
@@ -48,6 +52,11 @@ def run_one(job):
         env = dict(os.environ, VERIF_REPO=wt)
         rc, out = sh(f"cd {VERIF} && ./check {prop} {extra} 2>/dev/null", env=env)
         n = sum(1 for line in out.splitlines() if line.startswith("VIOLATION"))
+        if kind == "harmless":
+            summary = next((line for line in out.splitlines() if line.startswith("[")), "")
+            m_ = re.search(r"undecided=(\d+) out_of_reach=(\d+)", summary)
+            extra = f" undecided={m_.group(1)} out_of_reach={m_.group(2)}" if m_ else ""
+            return name, prop, ("silent" + extra) if (rc == 0 and n == 0) else f"FALSE-ALARM (exit {rc})", n
         return name, prop, "reported" if (rc == 1 and n) else f"NOT-REPORTED (exit {rc})", n
     finally:
         sh(f"git -C /repo worktree remove --force {wt}")
@@ -67,15 +76,20 @@ def main(argv):
     if os.path.exists(mfile):
         for m in json.load(open(mfile))["mutants"]:
             jobs.append((m["id"], m["property"], "mutant", m, m.get("check_args", "")))
+    hfile = os.path.join(root, "_harmless", "refactorings.json")
+    if os.path.exists(hfile):
+        for m in json.load(open(hfile))["refactorings"]:
+            jobs.append((m["id"], m["property"], "harmless", m, m.get("check_args", "")))
     if argv:
         jobs = [j for j in jobs if any(a in j[0] for a in argv)]
     missed = []
     with concurrent.futures.ThreadPoolExecutor(max_workers=int(os.environ.get("VERIF_SELFTEST_JOBS", "3"))) as pool:
         for name, prop, status, n in pool.map(run_one, jobs):
             print(f"selftest {name:28s} {prop} {status} ({n} VIOLATION lines)", flush=True)
-            if status != "reported":
+            if status != "reported" and not status.startswith("silent"):
                 missed.append(name)
-    print(f"selftest: {len(jobs) - len(missed)} of {len(jobs)} broken trees reported" + (f"; missed: {missed}" if missed else ""))
+    print(f"selftest: {len(jobs) - len(missed)} of {len(jobs)} trees judged as expected (broken trees reported, harmless refactorings silent)"
+          + (f"; wrong: {missed}" if missed else ""))
     return 1 if missed else 0
 
 
